@@ -130,34 +130,38 @@ def in_domain(kind, h, level, y, z):
 
 def scale(kind, h, level, y, z):
     """magnitude of the largest term of the formula (for tolerances)"""
-    v = _scale(kind, h, level, y, z)
+    core = _scale_core(kind, h, level, y, z)
     m = max(abs(y), abs(z))
     if 0 < m < 1e-6 and effective(kind, h, level)[0] != "logloss":
         # small units: the additive 1 would hide everything; use the homogeneous magnitude only
-        return max(v - 1.0, 1e-300)
-    return v
+        return max(core, 1e-300)
+    return 1.0 + core
 
 
 def _scale(kind, h, level, y, z):
+    return 1.0 + _scale_core(kind, h, level, y, z)
+
+
+def _scale_core(kind, h, level, y, z):
     fam, h, _ = effective(kind, h, level)
     try:
         if fam == "logloss":
-            return 1.0 + abs(math.log(z)) + abs(math.log1p(-z))
+            return abs(math.log(z)) + abs(math.log1p(-z))
         a, b = abs(y), abs(z)
         if fam == "hes":
             if h == 2:
-                return 1.0 + a * a + b * b
+                return a * a + b * b
             if h == 1:
-                return 1.0 + a * (abs(math.log(a / b)) if a > 0 else 0) + a + b
+                return a * (abs(math.log(a / b)) if a > 0 else 0) + a + b
             if h == 0:
-                return 1.0 + a / b + abs(math.log(a / b))
+                return a / b + abs(math.log(a / b))
             den = abs(h * (h - 1))
-            return 1.0 + (a**h + b**h) / den + b ** (h - 1) * abs(y - z) / abs(h - 1)
+            return (a**h + b**h) / den + b ** (h - 1) * abs(y - z) / abs(h - 1)
         if h == 0:
-            return 1.0 + abs(math.log(a)) + abs(math.log(b))
-        return 1.0 + (a**h + b**h) / abs(h)
+            return abs(math.log(a)) + abs(math.log(b))
+        return (a**h + b**h) / abs(h)
     except (ValueError, ZeroDivisionError, OverflowError):
-        return 1.0
+        return 0.0
 
 
 def far_enough(y, z):
